@@ -2620,6 +2620,210 @@ def interval_fun_cases(ctx, I, cases, rng):
 
 
 # =====================================================================================================
+# stream: HISTORIES on Calculation objects (going back to an earlier step, re-used substitution variables)
+# =====================================================================================================
+def judge_history_step(ctx, I, judge, calc, i, what, key, conds, ivars, hist=None):
+    """Step i of a live calculation: the value of its result against the calculation's start, with the substitutions
+    recorded by steps 0..i in force (up to an additive constant when antiderivatives are involved)."""
+    E = I.expr
+    substs = {}
+    for st in calc.steps[:i + 1]:
+        substs.update(st.rule.get_substs())
+    try:
+        with quiet():
+            start = I.parser.parse_expr(str(calc.start))
+        verdict, detail = judge.judge(start, calc.steps[i].res, conds, {}, substs, set(), ivars)
+    except Exception as ex:  # noqa
+        verdict, detail = "skip:evaluator-error:" + type(ex).__name__, None
+    ctx.count("history:step:" + verdict.split(":")[0])
+    if verdict == "bad":
+        ctx.violation(key, "%s: step %d (%s) of the calculation starting at %s has the result %s, which no longer has the value of "
+                      "the start: %s" % (what, i, calc.steps[i].rule, calc.start, calc.steps[i].res, detail),
+                      {"kind": "history", "what": what, "key": key, "history": hist})
+    return verdict
+
+
+def history_rule(I, p):
+    R, P = I.rules, I.parser.parse_expr
+    if p[0] == "Substitution":
+        return R.Substitution(p[1], P(p[2]))
+    if p[0] == "IndefiniteIntegralIdentity":
+        return R.IndefiniteIntegralIdentity()
+    if p[0] == "FullSimplify":
+        return R.FullSimplify()
+    return R.ReplaceSubstitution()
+
+
+def run_history(I, start, script):
+    """script: list of ["do", item] | ["back", j, item] (item = ["Substitution", name, g] | [rule name]): perform_rule at the
+    end / on step j (which cuts off the later steps, what the UI does through CalculationStep.perform_rule).  Returns
+    the live Calculation."""
+    script = [(op[0], (lambda it=op[1]: history_rule(I, it))) if op[0] == "do" else
+              (op[0], op[1], (lambda it=op[2]: history_rule(I, it))) for op in script]
+    cs = I.compstate
+    with quiet():
+        file = cs.CompFile("base", "c19_history")
+        calc = file.add_calculation(start)
+        for op in script:
+            rule = op[1]() if op[0] == "do" else op[2]()
+            cur = calc.last_expr if op[0] == "do" else calc.steps[op[1]].res
+            if isinstance(rule, I.rules.Substitution):
+                # re-using a name that still occurs (free, or as the variable of an integral not yet evaluated) is a
+                # mistake of the user, not of the calculator: stop the history here
+                nm = rule.var_name
+                if nm in cur.get_vars() or nm in indef_vars(I.expr, cur):
+                    break
+            if op[0] == "do":
+                calc.perform_rule(rule)
+            else:
+                calc.steps[op[1]].perform_rule(rule)
+    return calc
+
+
+def history_stream(ctx, I, n):
+    """Generated histories:  sum of antiderivatives, each solved by  substitute u -> table -> replace substitution  with
+    the SAME variable name u every time, interleaved with going back to an earlier step and re-doing the rule that was
+    applied there (or `replace substitution`).  Every step of every history is judged against the start."""
+    E, R = I.expr, I.rules
+    P = I.parser.parse_expr
+    rng = ctx.rng("history")
+    judge = StepJudge(I, rng, nsamples=2, budget_s=4.0)
+    outer = [("cos(%s)", "sin"), ("exp(%s)", "exp"), ("sin(%s)", "cos"), ("1 / (%s)", "log"), ("(%s) ^ 2", "pow")]
+    for k in range(n):
+        m = rng.choice([2, 2, 3])
+        gs, parts = [], []
+        while len(gs) < m:
+            g = "%d * x + %d" % (rng.choice([1, 2, 3, 4, 5]), rng.choice([1, 2, 3]))
+            if g.startswith("1 * "):
+                g = g[4:]
+            if g not in gs:
+                gs.append(g)
+        for g in gs:
+            parts.append("(INT x. %s)" % (rng.choice(outer)[0] % g))
+        start = " + ".join(parts)
+        names = ["u"] * m if rng.random() < 0.75 else ["u", "v", "w"][:m]
+        # forward plan: for each summand  substitute, table, replace substitution
+        plan = []
+        for g, nm in zip(gs, names):
+            plan.append(("Substitution", nm, g))
+            if not g.startswith("x"):
+                plan.append(("FullSimplify",))          # moves the factor 1/a out so that the table applies
+            plan.append(("IndefiniteIntegralIdentity",))
+            plan.append(("ReplaceSubstitution",))
+
+        # history: go forward some way, jump back to an earlier step and redo what was done there (or replace substitution)
+        upto = rng.randint(3, len(plan))
+        plan = [list(p) for p in plan]
+        script = [["do", p] for p in plan[:upto]]
+        back_to = rng.randint(0, upto - 2)
+        redo = plan[back_to + 1] if rng.random() < 0.7 else ["ReplaceSubstitution"]
+        script.append(["back", back_to, redo])
+        tail = plan[back_to + 2:back_to + 2 + rng.randint(0, 3)] if redo == plan[back_to + 1] else []
+        script += [["do", p] for p in tail]
+        what = "start %s; forward %s; back to step %d and %s; then %s" % (
+            start, [p[0] + (":" + p[2] if len(p) > 2 else "") for p in plan[:upto]], back_to, redo[0], [p[0] for p in tail])
+        ctx.case(("history", what), nontrivial=True)
+        try:
+            with time_limit(60):
+                calc = run_history(I, start, script)
+                fwd = run_history(I, start, [["do", p] for p in plan[:back_to + 2 + len(tail)]]) if redo == plan[back_to + 1] else None
+        except Timeout:
+            ctx.count("history:timeout")
+            continue
+        except Exception as ex:  # noqa
+            ctx.count("history:raises:" + type(ex).__name__)
+            continue
+        ctx.count("history:generated")
+        # (1) redoing the same rule at an earlier step gives what the forward calculation gives
+        if fwd is not None and len(fwd.steps) == len(calc.steps):
+            for i, (a, b) in enumerate(zip(calc.steps, fwd.steps)):
+                if not same_expr(E, a.res, b.res):
+                    ctx.count("history:differs-from-forward")
+        # (2) every step keeps the value of the start
+        for i in range(len(calc.steps)):
+            v = judge_history_step(ctx, I, judge, calc, i, what, "history:%s|back=%d|%s|step%d" % (start, back_to, redo[0], i), [], {"x"},
+                                   {"start": start, "script": script})
+            if v == "bad":
+                break
+    ctx.sample({"history": what} if n else {})
+
+
+def example_histories(ctx, I, files, deadline=None, per_calc=2):
+    """Histories from the recorded calculations: with all recorded steps in place, go back to step j and re-apply the
+    recorded rule of step j+1 through CalculationStep.perform_rule; the result must be what the forward replay gives
+    (same expression, else same value)."""
+    E, cs = I.expr, I.compstate
+    rng = ctx.rng("example-histories")
+    judge = StepJudge(I, rng, nsamples=2, budget_s=4.0)
+    for name, content in files:
+        if deadline is not None and time.time() > deadline:
+            ctx.count("example-histories:file-not-reached")
+            continue
+        book = find_book(ctx.repo, name)
+        try:
+            with quiet():
+                file = cs.CompFile(book, name)
+                for item in content:
+                    file.add_item(cs.parse_item(file, copy.deepcopy(item)))
+        except Exception:  # noqa
+            continue
+        for idx, item in enumerate(file.content):
+            for label, calc, is_eq in walk_calcs(I, item, "%s#%d" % (name, idx)):
+                nst = len(calc.steps)
+                if nst < 2:
+                    continue
+                recorded = [st.res for st in calc.steps]
+                exports = [copy.deepcopy(st.rule.export()) for st in calc.steps]
+                has_substs = any(st.rule.get_substs() for st in calc.steps)
+                for trial in range(per_calc + (1 if has_substs else 0)):
+                    j = rng.randint(0, nst - 2)
+                    # extra probe for calculations with substitutions: go back and apply `replace substitution`, which
+                    # reads the table of substitutions in force
+                    probe = has_substs and trial == per_calc
+                    if probe:
+                        exports_j1 = {"name": "ReplaceSubstitution", "str": "replace substitution"}
+                    else:
+                        exports_j1 = exports[j + 1]
+                    key = "%s/back-to-step%d%s" % (label, j, "/replace-substitution" if probe else "")
+                    ctx.case(("example-history", key), nontrivial=True)
+                    # forward reference: rule j+1 in the context of steps 0..j (what Calculation.perform_rule builds)
+                    saved = list(calc.steps)
+                    try:
+                        with quiet():
+                            with time_limit(60):
+                                hctx = I.context.Context(calc.ctx)
+                                for st in saved[:j + 1]:
+                                    hctx.extend_substs(st.rule.get_substs())
+                                ref = mk_rule(I, copy.deepcopy(exports_j1)).eval(I.parser.parse_expr(str(recorded[j])), hctx)
+                                # the history: all recorded steps present, go back to step j
+                                calc.steps[j].perform_rule(mk_rule(I, copy.deepcopy(exports_j1)))
+                                got = calc.steps[j + 1].res
+                    except Timeout:
+                        ctx.count("example-histories:timeout")
+                        continue
+                    except Exception as ex:  # noqa
+                        ctx.count("example-histories:raises")
+                        continue
+                    finally:
+                        calc.steps = saved
+                    if same_expr(E, ref, got):
+                        ctx.count("example-histories:same-as-forward")
+                        continue
+                    ctx.count("example-histories:differs-from-forward")
+                    substs = {}
+                    for st in saved[:j + 2]:
+                        substs.update(st.rule.get_substs())
+                    try:
+                        verdict, detail = judge.judge(ref, got, list(calc.ctx.get_conds().data), defs_of(I, calc.ctx), substs, set(), set())
+                    except Exception:  # noqa
+                        verdict, detail = "skip", None
+                    if verdict == "bad":
+                        ctx.violation("example-history:" + key, "going back to step %d of %s and re-applying the recorded rule %s gives %s, the "
+                                      "forward calculation gives %s: %s" % (j, label, exports_j1.get("name"), got, ref, detail),
+                                      {"kind": "example-history", "file": name, "key": key})
+
+
+# =====================================================================================================
 # stream: bounds of expressions under interval conditions (Conditions.get_bounds_for_expr)
 # =====================================================================================================
 def gen_bounded_expr(E, rng, depth):
@@ -2922,6 +3126,8 @@ def run(ctx):
     ftc_table_check(ctx, I)
     interval_fun_stream(ctx, I, ctx.scale(1500, 30000))
     rules_stream(ctx, I, ctx.scale(80, 900))
+    history_stream(ctx, I, ctx.scale(30, 400))
+    ctx.log("generated histories done")
     ctx.log("generated rule applications done")
     files = typed_example_files(ctx.repo)
     if os.environ.get("C19_REGEN_REPLAYABLE"):
@@ -2941,6 +3147,7 @@ def run(ctx):
     else:
         order = [f for grp in groups for f in grp]
         nsel = sum(nsteps_of(c) for _, c in order)
+    example_histories(ctx, I, order, deadline=time.time() + ctx.scale(15, 120), per_calc=ctx.scale(1, 3))
     stats = replay_examples(ctx, I, order, deadline=time.time() + ctx.scale(95, 900))
     stats.pop("_slow", None)
     ntotal = sum(nsteps_of(c) for _, c in files)
@@ -3001,6 +3208,16 @@ def replay_one(ctx, I, rp):
             before = P(rp["before"])
             rule = mk_rule(I, dict(rp["params"]))
         rule_case(ctx, I, rp["rule"], before, rule, rng)
+    elif k == "history":
+        h = rp["history"]
+        calc = run_history(I, h["start"], h["script"])
+        judge = StepJudge(I, rng, nsamples=2, budget_s=10.0)
+        for i in range(len(calc.steps)):
+            if judge_history_step(ctx, I, judge, calc, i, rp.get("what", ""), rp["key"], [], {"x"}, h) == "bad":
+                break
+    elif k == "example-history":
+        files = [f for f in typed_example_files(ctx.repo) if f[0] == rp["file"]]
+        example_histories(ctx, I, files, per_calc=8)
     elif k == "no-crash":
         # a rule may decline (AssertionError) or succeed, but must not die of a TypeError/AttributeError/...
         with quiet():
